@@ -1,6 +1,7 @@
 import Driver.Proto
 import PqModel.CopyPath
 import PqModel.Splice
+import PqModel.SpliceMeta
 
 /-! Ops for C11: the decision cascade of `Writer.WriteRowGroup`.
 
@@ -177,8 +178,85 @@ def spliceAll (start : Nat) (cs : List (PqModel.Layout.ChunkMeta × Nat)) : Opti
   let showB : Option (Nat × Nat) → String := fun b => match b with | none => "n" | some (o, l) => s!"{o}.{l}"
   some s!"{";".intercalate (metas.map showChunkMeta)} {",".intercalate (blooms.map showB)}"
 
+/-! `copy.splicev <start> <chunks>` -> `ok <chunks'> <blooms> rg=<file_offset>,<total_byte_size>,<total_compressed_size>,<num_rows>` | `err layout`
+  the whole metadata of a row group all of whose columns are spliced (`SpliceMeta.spliceRowGroupBlooms`)
+  chunks : `;`-joined `<layout>~<values>`; layout as in `copy.splice` (with bloomLength)
+  values : `:`-joined nullPages(0/1 string|-) mins maxs (`.`-joined hex, `e` = empty bytes, `-` = no entry)
+           boundaryOrder nullCounts ciRepHist ciDefHist (`.`-joined|-) unencoded ssRepHist ssDefHist
+           nullCount distinctCount minValue maxValue min max (`n` absent | hex | `e`) encStats (`.`-joined `pt_enc_count`|-)
+  chunks': the same without bloomLength -/
+
+open PqModel.SpliceMeta in
+def parseBytes? (s : String) : Option Bytes := if s == "e" then some [] else parseHex? s
+
+def showBytes (b : PqModel.SpliceMeta.Bytes) : String := if b.isEmpty then "e" else toHex b
+
+def dotList (s : String) : List String := if s == "-" then [] else s.splitOn "."
+
+def showDots (xs : List String) : String := if xs.isEmpty then "-" else ".".intercalate xs
+
+def parseOptBytes? (s : String) : Option (Option PqModel.SpliceMeta.Bytes) :=
+  if s == "n" then some none else (parseBytes? s).map some
+
+def showOptBytes : Option PqModel.SpliceMeta.Bytes → String
+  | none => "n"
+  | some b => showBytes b
+
+def parseEncStatV? (s : String) : Option PqModel.SpliceMeta.EncStat :=
+  match s.splitOn "_" with
+  | [a, b, c] => do some ⟨← parseNat? a, ← parseNat? b, ← parseNat? c⟩
+  | _ => none
+
+def parseValues? (s : String) (layout : PqModel.Layout.ChunkMeta) : Option PqModel.SpliceMeta.FullMeta :=
+  match s.splitOn ":" with
+  | [np, mins, maxs, bo, ncs, crh, cdh, un, srh, sdh, nc, dc, mnv, mxv, mn, mx, es] => do
+    let nps ← (if np == "-" then some [] else np.toList.mapM fun c => if c == '1' then some true else if c == '0' then some false else none)
+    some { layout := layout,
+           columnIndex := { nullPages := nps, minValues := ← (dotList mins).mapM parseBytes?,
+                            maxValues := ← (dotList maxs).mapM parseBytes?, boundaryOrder := ← parseNat? bo,
+                            nullCounts := ← (dotList ncs).mapM parseNat?, repHist := ← (dotList crh).mapM parseNat?,
+                            defHist := ← (dotList cdh).mapM parseNat? },
+           sizeStats := { unencoded := ← parseNat? un, repHist := ← (dotList srh).mapM parseNat?,
+                          defHist := ← (dotList sdh).mapM parseNat? },
+           statistics := { nullCount := ← parseNat? nc, distinctCount := ← parseNat? dc,
+                           minValue := ← parseOptBytes? mnv, maxValue := ← parseOptBytes? mxv,
+                           min := ← parseOptBytes? mn, max := ← parseOptBytes? mx },
+           encStats := ← (dotList es).mapM parseEncStatV? }
+  | _ => none
+
+def showValues (m : PqModel.SpliceMeta.FullMeta) : String :=
+  let ci := m.columnIndex
+  let nats := fun (xs : List Nat) => showDots (xs.map toString)
+  let np := if ci.nullPages.isEmpty then "-" else String.mk (ci.nullPages.map fun b => if b then '1' else '0')
+  ":".intercalate [np, showDots (ci.minValues.map showBytes), showDots (ci.maxValues.map showBytes),
+    toString ci.boundaryOrder, nats ci.nullCounts, nats ci.repHist, nats ci.defHist,
+    toString m.sizeStats.unencoded, nats m.sizeStats.repHist, nats m.sizeStats.defHist,
+    toString m.statistics.nullCount, toString m.statistics.distinctCount,
+    showOptBytes m.statistics.minValue, showOptBytes m.statistics.maxValue,
+    showOptBytes m.statistics.min, showOptBytes m.statistics.max,
+    showDots (m.encStats.map fun e => s!"{e.pageType}_{e.encoding}_{e.count}")]
+
+def parseSrcChunkV? (s : String) : Option (PqModel.SpliceMeta.FullMeta × Nat) :=
+  match s.splitOn "~" with
+  | [l, v] => do
+    let (layout, bl) ← parseSrcChunk? l
+    some (← parseValues? v layout, bl)
+  | _ => none
+
+def spliceAllV (start : Nat) (cs : List (PqModel.SpliceMeta.FullMeta × Nat)) : Option String := do
+  let r ← PqModel.SpliceMeta.spliceRowGroupBlooms start cs
+  let t := PqModel.SpliceMeta.rowGroupTotals start (r.map (·.1))
+  let showB : Option (Nat × Nat) → String := fun b => match b with | none => "n" | some (o, l) => s!"{o}.{l}"
+  some s!"{";".intercalate (r.map fun mb => showChunkMeta mb.1.layout ++ "~" ++ showValues mb.1)} {",".intercalate (r.map fun mb => showB mb.2)} rg={t.fileOffset},{t.totalByteSize},{t.totalCompressedSize},{t.numRows}"
+
 def handle (toks : List String) : Option String :=
   match toks with
+  | ["copy.splicev", start, chunks] => some <|
+    match parseNat? start, (chunks.splitOn ";").mapM parseSrcChunkV? with
+    | some st, some cs => match spliceAllV st cs with
+      | some r => "ok " ++ r
+      | none => "err layout"
+    | _, _ => "bad-op"
   | ["copy.choose", v, g, cols, rg] => some <|
     match parseVariant? v, parseCfg? g cols, parseRG? rg with
     | some v, some g, some rg =>
